@@ -3,7 +3,6 @@ package binary
 import (
 	"bytes"
 	"fmt"
-	"io"
 
 	"github.com/tetratelabs/wazero/api"
 	"github.com/tetratelabs/wazero/internal/leb128"
@@ -71,8 +70,7 @@ func decodeDataSegment(r *bytes.Reader, enabledFeatures api.CoreFeatures, ret *w
 		return
 	}
 
-	ret.Init = make([]byte, vs)
-	if _, err = io.ReadFull(r, ret.Init); err != nil {
+	if ret.Init, err = readBytes(r, vs); err != nil {
 		err = fmt.Errorf("read bytes for init: %v", err)
 	}
 	return
